@@ -137,6 +137,8 @@ Inductive prim :=
 Record cfg := {
   cf_stream_shared : bool;   (* true: streamBytes reads move one shared reader position (pinned tree);
                                 false: every read uses a private reader at offset 0 (repaired) *)
+  cf_mapcopy_begin : bool;   (* true: the generic copy path of plainMap AssignNode calls BeginMap first
+                                (fix e205164); false: it writes into the nil map of a fresh builder and panics *)
   cf_grow : nat -> nat
 }.
 
@@ -531,7 +533,9 @@ Definition map_assign_node (a : addr) (r : nref) : mprog pout :=
             | VMapHdr t g => wrv s (VMapHdr t g) (wrv a (val_with_masm v (set_mst m MFinished)) (Ret (POk HNone)))
             | _ => Crash end)
         end
-    | RForeign (DMap es) => map_copy_loop a es     (* generic copy: NO BeginMap first *)
+    | RForeign (DMap es) =>                        (* generic copy *)
+        if cf_mapcopy_begin cf then let* _ := map_begin a (length es) in map_copy_loop a es
+        else map_copy_loop a es                    (* … without BeginMap on the tree before the fix *)
     | _ => Ret (PErr EWrongKind)
     end).
 
@@ -852,18 +856,21 @@ Definition handle_eqb (a b : handle) : bool :=
   | _, _ => false
   end.
 
-(* was this handle handed out?  (foreign nodes and "no handle" need no capability) *)
+(* Only nodes and byte slices are capabilities the library hands out and the theorems care about;
+   builder and assembler handles need none (every call re-validates the object it is given). *)
 Definition known_b (k : list handle) (h : handle) : bool :=
   match h with
-  | HNone | HNode (RForeign _) | HNode RNull => true
+  | HNode (RForeign _) | HNode RNull | HNode RNil => true
   | HNode (RBytesP s) => existsb (handle_eqb h) k || existsb (handle_eqb (HSlice s)) k
-  | _ => existsb (handle_eqb h) k
+  | HNode _ | HSlice _ => existsb (handle_eqb h) k
+  | _ => true
   end.
 
 Definition add_known (k : list handle) (h : handle) : list handle :=
   match h with
-  | HNone | HNode (RForeign _) | HNode RNull | HNode RNil => k
-  | _ => if existsb (handle_eqb h) k then k else h :: k
+  | HNode (RForeign _) | HNode RNull | HNode RNil => k
+  | HNode _ | HSlice _ => if existsb (handle_eqb h) k then k else h :: k
+  | _ => k
   end.
 
 Definition out_handles (o : pout) : list handle :=
@@ -877,10 +884,18 @@ Definition out_handles (o : pout) : list handle :=
   | PAcc _ => []
   end.
 
+(* the calls that can hand out nodes or slices *)
+Definition returns_caps (p : prim) : bool :=
+  match p with
+  | PBuild _ | PRead _ _ | PNewSlice _ | PNewBytesNode _ | PNewStreamNode _ | PNewScalarNode _
+  | PForeign _ | PMatchSubset _ _ _ => true
+  | _ => false
+  end.
+
 Definition pstep (ps : pstate) (p : prim) : pstate * presult :=
   let '(o, h', _) := run 0 (prim_prog p) (hp ps) in
   match o with
-  | Done po => ({| hp := h'; kn := fold_left add_known (out_handles po) (kn ps) |}, RDone po)
+  | Done po => ({| hp := h'; kn := if returns_caps p then fold_left add_known (out_handles po) (kn ps) else kn ps |}, RDone po)
   | Crashed => ({| hp := h'; kn := kn ps |}, RPanic)
   end.
 
@@ -901,12 +916,11 @@ Definition cell_val (h : mheap) (a : addr) : option val :=
    after its Assign* / Finish; a done builder may only Build or Reset; Build needs a done builder.
    basicnode enforces most of this itself by panicking; what it does NOT check is listed here.
    And the property excludes callers writing into byte slices. *)
-Definition legal (ps : pstate) (p : prim) : bool :=
-  forallb (known_b (kn ps)) (prim_operands p) &&
+Definition legal_heap (h : mheap) (p : prim) : bool :=
   match p with
   | PCallerWrite _ _ _ => false
   | PBeginMap (HBuilder a) _ | PBeginList (HBuilder a) _ =>
-      match cell_val (hp ps) a with
+      match cell_val h a with
       | Some (VMapB m) => negb (mst_eqb (m_st m) MFinished)     (* BeginMap after Finish: overwrites w.t, w.m *)
       | Some (VListB l) => negb (lst_eqb (l_st l) LFinished)
       | Some (VAnyB _ m l _) =>                                  (* a stale assembler handle finished it after Reset *)
@@ -914,17 +928,20 @@ Definition legal (ps : pstate) (p : prim) : bool :=
       | _ => true
       end
   | PAssign (HBuilder a) _ | PAssignNode (HBuilder a) _ | PAssignBytes (HBuilder a) _ =>
-      match cell_val (hp ps) a with
+      match cell_val h a with
       | Some (VScalB _ _ done) => negb done                     (* second Assign: *na.w = v on the built node *)
       | _ => true
       end
   | PBuild (HBuilder a) =>
-      match cell_val (hp ps) a with
+      match cell_val h a with
       | Some (VScalB _ _ done) => done                          (* Build before Assign hands out the live w *)
       | _ => true
       end
   | _ => true
   end.
+
+Definition legal (ps : pstate) (p : prim) : bool :=
+  forallb (known_b (kn ps)) (prim_operands p) && legal_heap (hp ps) p.
 
 Fixpoint runh (ps : pstate) (hs : list prim) : pstate :=
   match hs with [] => ps | p :: r => runh (fst (pstep ps p)) r end.
@@ -940,5 +957,7 @@ End Model.
 (* the configurations the checks run: the pinned tree, and the tree with streamBytes repaired.
    [go_grow] stands for the runtime's growth policy; no theorem depends on it. *)
 Definition go_grow (c : nat) : nat := if c =? 0 then 1 else 2 * c.
-Definition cfg_pinned : cfg := {| cf_stream_shared := true; cf_grow := go_grow |}.
-Definition cfg_repaired : cfg := {| cf_stream_shared := false; cf_grow := go_grow |}.
+Definition cfg_pinned : cfg := {| cf_stream_shared := true; cf_mapcopy_begin := true; cf_grow := go_grow |}.
+Definition cfg_repaired : cfg := {| cf_stream_shared := false; cf_mapcopy_begin := true; cf_grow := go_grow |}.
+Definition cfg_of (stream_shared mapcopy_begin : bool) : cfg :=
+  {| cf_stream_shared := stream_shared; cf_mapcopy_begin := mapcopy_begin; cf_grow := go_grow |}.
